@@ -304,6 +304,9 @@ class Buffer:
         # Each timestep we check the length - if something has been removed
         # from transfer, we update the data rate
 
+        # Another move may be in flight and own the transfer slot; a refused
+        # move must hand it back as it found it
+        slot_before = self.hot[b].observations['transfer']
         current_obs = self.hot[b].observation_for_transfer()
         # current_obs = self.hot.observations['transfer']
         self._data_left_to_transfer = current_obs.total_data_size
@@ -318,7 +321,7 @@ class Buffer:
             # constraints
             # TODO create an object method to update the hot buffer
             self.hot[b].observations['stored'].append(current_obs)
-            self.hot[b].observations['transfer'] = None
+            self.hot[b].observations['transfer'] = slot_before
             return False
         self._add_event(current_obs, "transfer", "started")
         # An observation without data still has to change tiers: always
@@ -395,6 +398,7 @@ class Buffer:
         # Each timestep we check the length - if something has been removed
         # from transfer, we update the data rate
 
+        slot_before = self.cold[b].observations['transfer']
         current_obs = self.cold[b].observation_for_transfer()
         # current_obs = self.hot.observations['transfer']
         data_left_to_transfer = current_obs.total_data_size
@@ -408,7 +412,7 @@ class Buffer:
             # constraints
             # TODO create an object method to update the hot buffer
             self.cold[b].observations['stored'].append(current_obs)
-            self.cold[b].observations['transfer'] = None
+            self.cold[b].observations['transfer'] = slot_before
             return False
         self._add_event(current_obs, "transfer", "started")
         # Several moves may be in flight: account for each one's remainder
